@@ -996,6 +996,9 @@ func (w *World) observeSync(rc *Recorder, f func() error) {
 		}
 	}
 	rc.cw.Add("db_sync_step", in, obs, cls, first != nil)
+	// the abstract machine's verify (the function the whole-history theorems are about) takes the same
+	// decision as the byte-level model on this very state (both evaluated in Coq on the same input)
+	rc.cw.Add("machine_verify_agrees", in, I(1), "machine-verify/"+strings.TrimPrefix(cls, "sync-step/"), first != nil)
 }
 
 // ---- history generation ----------------------------------------------------------------------------------------
